@@ -657,6 +657,33 @@ example : metaOK toyCharSpec [tk .word "prep".toList, tk .ws [' '], tk .word "ti
 example : metaOK toyCharSpec [tk .word ['a'], tk .colon [':'], tk .word ['b']] [tk .word ['v']] {} = false := by decide
 example : stepBlockOK (C01_exStepX.flatMap SegX.spell) = true := by decide
 
+/-- A text paragraph (`>` block, `parse_text_block`).  The tokens of one block that spell the lines of a
+    paragraph (`PLine`: every line may start with `>` and one run of blanks — the first line must —, then a
+    body without newline token that shows at least one non-blank character; all lines but the last end with
+    their newline token; `paraLinesOK`) are parsed by `parse_block` + `finish` to `start text`, exactly ONE text
+    event per line whose text is the line's body followed by one space for the line break (`PLine.text`; the
+    `>` and the blank after it are not part of the text), and `end text`; nothing else is emitted, no panic.
+    (A line without `>` continues the paragraph; a `>` later in a line is ordinary text.) -/
+theorem C01_block_paragraph {α : Type} [Arith α] (lines : List PLine) (cs : CharSpec) (ext : Ext) (oldStyle : Bool)
+    (ts : List Tok) (evs0 : Array (Ev α)) (panic : Option String) (hs : Spells ts (lines.flatMap PLine.spell))
+    (hrun : RunAt (baseOff ts) ts) (hok : paraLinesOK cs lines = true) (hfirst : lines.head?.any (·.marker) = true) :
+    ∃ (txts : List Text) (arr : Array (Ev α)),
+      runBlock cs ext oldStyle ts evs0 panic = (arr, panic) ∧
+      arr.toList = evs0.toList ++ [.start .text] ++ txts.map Ev.text ++ [.stop .text] ∧
+      txts.map (·.text) = lines.map PLine.text :=
+  rtp_runBlock_para lines cs ext oldStyle ts evs0 panic hs hrun hok hfirst
+
+/-! example: `> Note:⏎rest.` (the second line without `>`); a line with nothing to show, a first line without
+    `>` are rejected -/
+def C01_exPara : List PLine :=
+  [{ sp := [tk .ws [' ']], body := [tk .word "Note".toList, tk .colon [':']], nl := [tk .newline ['\n']] },
+   { marker := false, body := [tk .word "rest".toList, tk .dot ['.']] }]
+example : (DocItem.para C01_exPara).ok toyCharSpec ⟨0⟩ = true := by decide
+example : C01_exPara.flatMap PLine.text = "Note: rest.".toList := by decide
+example : String.ofList (render ((DocItem.para C01_exPara).spell)) = "> Note:\nrest." := by decide
+example : (DocItem.para [{ body := [tk .ws [' ']] }]).ok toyCharSpec ⟨0⟩ = false ∧
+    (DocItem.para [{ marker := false, body := [tk .word ['a']] }]).ok toyCharSpec ⟨0⟩ = false := by decide
+
 /-! ### from the printed characters to the events -/
 
 /-- The link between the printer's characters and every theorem above: if the printed token list
@@ -768,13 +795,15 @@ theorem C01_blocks_split (pre : List Tok) (ds : List (List Tok × List Tok)) (hp
 /-- Document level of the round trip.  A recipe text printed from `pre ++ docSpec doc` — leading
     blank lines, then the items of `doc`: steps (`SegX` segment lists as in `C01_step_compose`,
     on one or several lines: a text run may contain newline tokens as long as no line of the step
-    is blank or starts with `>>` / `=`), section lines, `>>` metadata lines, each satisfying the side
+    is blank or starts with `>>` / `=`), section lines, `>>` metadata lines, text paragraphs (`>` blocks of
+    one or more lines, `C01_block_paragraph`), each satisfying the side
     conditions of its layer (`DocItem.ok`), separated as in `C01_blocks_split` (`sepsOK`) — when
     the printed token list is well spelled and the text has no front-matter fence, is read by the
     whole pull parser (lexer, block splitter, `parse_block` on every block) as follows: the
     splitter produces exactly one block per item, whose tokens spell the item; the event list is
     the concatenation, in order, of the events of the items (`DocItemEvs`: `start step`, one event
-    per segment, `stop step`; one `section` event; one `metadata` event); no error, no warning, no
+    per segment, `stop step`; one `section` event; one `metadata` event; `start text`, one text event per
+    line of a paragraph, `end text`); no error, no warning, no
     panic.  A soft line break inside a step shows as one space in the text event
     (`C01_soft_break_is_space`).  This discharges the `partial` of `C01_input_step_line_partial`
     for several blocks and multi-line steps; what remains outside is front matter (`---`) as the
@@ -1035,8 +1064,10 @@ theorem C01_metadata_entry {α : Type} [Arith α] (env : Env) (input : Str) (k v
     (h : EntryPlain env k v) : (processEvent env input (.metadata k v) s).2 = entryEffect env k v s :=
   rts_metadataA_plain env k v s h
 
-/-- The round trip for documents made of steps, section lines and `>>` metadata lines, from the printed
-    characters to the recipe (extends `C01_recipe_steps`; same hypotheses on the syntax layers:
+/-- The round trip for documents made of steps, section lines, `>>` metadata lines and text paragraphs
+    (`DocItem.para`: the joined text of the lines — a line break shows as one space, the `>` markers are
+    dropped — becomes one `Content::Text` at its place in the section, unnumbered: `absParaContent`), from the
+    printed characters to the recipe (extends `C01_recipe_steps`; same hypotheses on the syntax layers:
     `DocItem.ok`, `sepsOK`, `blankLinesOK`, well-spelledness, no front-matter fence; steps made of plain
     definitions, `DocItem.simple`), for EVERY extension set — so for the canonical parser (no extension) and
     for the extended parser (all extensions) of the property's quantifier: instead of requiring
@@ -1055,8 +1086,8 @@ theorem C01_metadata_entry {α : Type} [Arith α] (env : Env) (input : Str) (k v
       repeated key overwritten in place;
     * the diagnostics are exactly: nothing when the document has no `>>` line, otherwise the ONE
       deprecation warning with one label per `>>` line (the only warning the property's oracle allows).
-    Outside (tested only): front matter as the metadata carrier, the three time keys, mode switches,
-    references and intermediate references. -/
+    Outside (tested only): front matter as the metadata carrier, the three time keys, mode switches;
+    references and intermediate references are in `C01_recipe_doc_refs`. -/
 theorem C01_recipe_doc {α : Type} [Arith α] (env : Env) (pre : List Tok) (doc : List (DocItem × List Tok))
     (hpre : blankLinesOK pre = true) (hok : ∀ d ∈ doc, d.1.ok env.cs env.ext = true)
     (hsimple : ∀ d ∈ doc, d.1.simple = true) (hplain : ∀ d ∈ doc, d.1.plain env)
@@ -1486,8 +1517,9 @@ theorem C01_analysis_doc_all_refs {α : Type} [Arith α] (env : Env) (input : St
     `xRun …` of the abstract document: a regular reference points to the last earlier non-REF definition of
     its name, which lists it back; an intermediate reference points to the k-th step of its section / k-th
     step back / k-th section (`C01_intermediate_target_spec`); the only diagnostic is the `>>` deprecation
-    notice.  Outside: ADVANCED_UNITS together with regular ingredient references (unit compatibility checks),
-    mode switches, front matter, text paragraphs at the document level. -/
+    notice.  Text paragraphs (`DocItem.para`) are part of the document: they occupy a position of the
+    section's content, which an intermediate step reference skips when counting.  Outside: ADVANCED_UNITS
+    together with regular ingredient references (unit compatibility checks), mode switches, front matter. -/
 theorem C01_recipe_doc_refs {α : Type} [Arith α] (env : Env) (pre : List Tok) (doc : List (DocItem × List Tok))
     (hpre : blankLinesOK pre = true) (hok : ∀ d ∈ doc, d.1.ok env.cs env.ext = true)
     (hlock : ∀ d ∈ doc, d.1.lockOK = true) (hplain : ∀ d ∈ doc, d.1.plain env)
@@ -1517,11 +1549,12 @@ theorem C01_reference_conditions_check {α : Type} [Arith α] (env : Env) (block
 /-- a plain definition (`SegX.simple`) satisfies the lock condition of `C01_recipe_doc_refs` -/
 theorem C01_simple_lock_ok (seg : SegX) (h : seg.simple = true) : seg.lockOK = true := rtdr_simple_lockOK seg h
 
-/-! example: `Mix @flour{200%g} in #bowl{}.` / `Add @&flour{50%g} to @&(~1)dough{} in #&bowl{}.` /
+/-! example: `Mix @flour{200%g} in #bowl{}.` / `> Note:⏎rest.` / `Add @&flour{50%g} to @&(~1)dough{} in #&bowl{}.` /
     `== Bake == ` / `Bake @&( = ~ 1 )?loaf{}.` under MODIFIERS + ALIAS + INTERMEDIATE_PREPARATIONS.  The
     hypotheses hold (the reference conditions by the computable check); the result: `flour` lists its
-    reference 1 back, `dough` points to step position 0 of the unnamed section (the step before), `loaf` to
-    section 0 (one section back) and is optional; `bowl` likewise for cookware; item indices run through. -/
+    reference 1 back, `dough` points to position 0 of the unnamed section (the step before: the paragraph at
+    position 1 is skipped), `loaf` to section 0 (one section back) and is optional; `bowl` likewise for
+    cookware; item indices run through; the paragraph is unnumbered content. -/
 def C01_refsExt : Ext :=
   ⟨Gen.EXT_COMPONENT_MODIFIERS ||| Gen.EXT_COMPONENT_ALIAS ||| Gen.EXT_INTERMEDIATE_PREPARATIONS⟩
 def C01_refsEnv : Env := ⟨toyCharSpec, C01_refsExt, fun _ => none, fun _ _ => .ok, fun c => [c], 0⟩
@@ -1533,6 +1566,7 @@ def C01_exRefsDoc : List (DocItem × List Tok) :=
            .text [C01_sp, tk .word "in".toList, C01_sp],
            .cookware { name := [tk .word "bowl".toList] } {},
            .text [tk .dot ['.']]], [C01_nl, C01_nl]),
+   (.para C01_exPara, [C01_nl, C01_nl]),
    (.step [.text [tk .word "Add".toList, C01_sp],
            .ingredient { mods := [.and], name := [tk .word "flour".toList], qty := some (C01_grams "50") } {},
            .text [C01_sp, tk .word "to".toList, C01_sp],
@@ -1546,8 +1580,9 @@ def C01_exRefsDoc : List (DocItem × List Tok) :=
              { name := [tk .word "loaf".toList] } {},
            .text [tk .dot ['.']]], [C01_nl])]
 
+set_option maxRecDepth 4000 in
 example : String.ofList (render (docSpec C01_exRefsDoc)) =
-    "Mix @flour{200%g} in #bowl{}.\n\nAdd @&flour{50%g} to @&(~1)dough{} in #&bowl{}.\n\n== Bake == \n\nBake @&( = ~ 1 )?loaf{}.\n" := by
+    "Mix @flour{200%g} in #bowl{}.\n\n> Note:\nrest.\n\nAdd @&flour{50%g} to @&(~1)dough{} in #&bowl{}.\n\n== Bake == \n\nBake @&( = ~ 1 )?loaf{}.\n" := by
   decide
 example : (∀ d ∈ C01_exRefsDoc, d.1.ok C01_refsEnv.cs C01_refsEnv.ext = true) ∧
     (∀ d ∈ C01_exRefsDoc, d.1.lockOK = true) ∧ sepsOK (C01_exRefsDoc.map (·.2)) = true := by decide
@@ -1558,12 +1593,13 @@ example : xOK (α := Rat) C01_refsEnv {} [] ⟨none, []⟩ 1 (C01_exRefsDoc.map 
 example : (∀ d ∈ C01_exRefsDoc, d.1.plain C01_refsEnv) ∧ (∀ d ∈ C01_exRefsDoc, d.1.extOK Rat C01_refsEnv) := by
   constructor <;> intro d hd <;>
     simp only [C01_exRefsDoc, List.mem_cons, List.not_mem_nil, or_false] at hd <;>
-    rcases hd with rfl | rfl | rfl | rfl <;> try trivial
+    rcases hd with rfl | rfl | rfl | rfl | rfl <;> try trivial
   all_goals
     intro sg _
     cases sg <;> first | trivial | (intro h; exact absurd h (by decide))
 example : (xRun (α := Rat) C01_refsEnv {} [] ⟨none, []⟩ 1 [] (C01_exRefsDoc.map (fun d => d.1.x))).secs =
     [⟨none, [.step ⟨[.text "Mix ".toList, .ingredient 0, .text " in ".toList, .cookware 0, .text ".".toList], 1⟩,
+             .text "Note: rest.".toList,
              .step ⟨[.text "Add ".toList, .ingredient 1, .text " to ".toList, .ingredient 2, .text " in ".toList,
                      .cookware 1, .text ".".toList], 2⟩]⟩,
      ⟨some "Bake".toList, [.step ⟨[.text "Bake ".toList, .ingredient 3, .text ".".toList], 1⟩]⟩] := by decide
